@@ -267,6 +267,27 @@ PROPS = {
         "assumptions": ["metadata: every header sent with the upload must come back unchanged (headers carried over from an overwritten object are allowed in addition)"],
         "timeout": {"quick": 900, "thorough": 3000},
     },
+    "C09": {
+        "title": "Every request gets a well-formed answer; no panic, hang or wedged state",
+        "harness": "c09",
+        "model": "Model/Errors.v status table; Model/Handlers.v step, Model/Uploader.v, Model/MemVersions.v, Model/Range.v, Model/Chunk.v (each with explicit panic outcomes where the Go code can index / slice / dereference nil)",
+        "rule": "350 (quick) / 20000 (thorough) grammar-generated requests per configuration (memory: default, auto-bucket, no-versioning, "
+                "host-bucket, unimplemented-page error; other backends: default and auto-bucket in the quick tier) against stores "
+                "holding objects, versions with a delete marker and a pending multipart upload: method x path (bucket pool incl. "
+                "nosuch . .. _meta, hostile keys) x up to 3 of 26 query parameters with valid / absurd / overflowing / non-numeric "
+                "values x body (hostile XML for multi-delete, complete, versioning; malformed XML; random bytes; multipart forms with "
+                "missing or duplicate parts; aws-chunked incl. truncated with hostile decoded lengths) x hostile headers (Range, "
+                "Content-MD5, X-Amz-Copy-Source, Content-Length, conditionals, force-delete, oversized metadata). Every request runs "
+                "under recover() and a 5 s deadline; every 25 requests a canary sequence on a fresh bucket and on the fuzzed bucket is "
+                "compared with the model. distinct_nontrivial = distinct (backend, config, status, code, method, header count).",
+        "explanation": "Theorems: no reachable state makes a modelled handler panic (object API, range, uploader complete/list with any "
+                       "part number or marker, version listing), an error leaves the state unchanged, and the status of an error equals "
+                       "the table entry of its code. Tie: model-free response oracle (extracted from Coq) on every response of the Go "
+                       "handlers + canary sequences against the model. PARTIAL: panics inside encoding/xml, mime/multipart, bbolt, "
+                       "afero and blocking on I/O cannot be exhibited by the model; the deadline and recover() in the harness observe them.",
+        "assumptions": ["declared lengths above 1 MiB are not sent to the live process (ReadAll preallocates the declared size)"],
+        "timeout": {"quick": 900, "thorough": 3000},
+    },
 }
 
 # properties whose check is not built yet are listed so the manifest stays honest
